@@ -11,6 +11,7 @@ import (
 	"sort"
 	"strings"
 	"testing"
+	"time"
 
 	"pgregory.net/rapid"
 
@@ -43,6 +44,10 @@ var registry = map[string]*propDef{}
 // judge is a pure function of the case (no clock, no RNG, no map-order dependence).
 func defProp[C any](id, rule string, assumptions []string, draw func(*rapid.T) *C, judge func(*C, *Ctx) *Violation) {
 	safe := func(c *C, cx *Ctx) (v *Violation) {
+		if id != "C03" && id != "C13" && id != "C18" { // those arm it themselves / run under -race
+			watchdogArmFor(id, c, 90*time.Second)
+			defer watchdogDisarm()
+		}
 		defer func() {
 			if e := recover(); e != nil {
 				v = violf("panic in library or oracle: %v\n%s", e, trimStack(debug.Stack()))
